@@ -1,6 +1,7 @@
 package websocket
 
 import (
+	"bufio"
 	"context"
 	"errors"
 	"io"
@@ -780,4 +781,49 @@ func verifC05_stale_reader() {
 	vAssert(n == 0 && err != nil, "C05.stale-reader.finished-message-yields-no-more-bytes")
 	c.CloseNow()
 	vObserve("c05stalereader", n, err == io.EOF)
+}
+
+// C05.big-chunk: a streamed writer whose chunk is as large as the write buffer (4096 bytes and more) while another
+// goroutine sends a Ping: everything the two write goes through the connection's one buffered writer, so every access
+// to it must be ordered by the frame lock (engine: happens-before analysis; natively the Go race detector), and the
+// wire carries the message and the Ping frame whole.
+func verifC05_big_chunk() {
+	client := vParam("client", 1) == 1
+	vInstallRand().concrete = true
+	t := vNewTransport(nil)
+	t.endMode = vEndBlock
+	c := newConn(connConfig{rwc: t, client: client, br: bufio.NewReaderSize(t, 64), bw: bufio.NewWriterSize(t, 4096)})
+	n := 4096 + vChoose("extra", 2)*1000
+	chunk := make([]byte, n)
+	for i := range chunk {
+		chunk[i] = byte('a' + i%7)
+	}
+	wdone := make(chan error, 1)
+	go func() {
+		w, err := c.Writer(vBG, MessageBinary)
+		if err == nil {
+			_, err = w.Write(chunk)
+		}
+		if err == nil {
+			err = w.Close()
+		}
+		wdone <- err
+	}()
+	ctx, cancel := context.WithTimeout(vBG, time.Second)
+	c.Ping(ctx)
+	cancel()
+	vAssert(<-wdone == nil, "C05.big-chunk.writer-ok")
+	vReach("C05.big-chunk.done")
+	frames, ok := vParseWritten(t.out)
+	good, inMsg, nMsgs := vWireSequenceOK(frames, client)
+	vAssert(ok && good && !inMsg && nMsgs == 1, "C05.big-chunk.wire")
+	var got []byte
+	for _, f := range frames {
+		if f.opcode < 8 {
+			got = append(got, f.payload...)
+		}
+	}
+	vAssert(vEqBytes(got, chunk), "C05.big-chunk.message")
+	c.CloseNow()
+	vObserve("c05bigchunk", len(t.out))
 }
